@@ -6,7 +6,10 @@
 package c20
 
 import (
+	"fmt"
 	"os"
+	"strings"
+	"time"
 
 	"verifharness/core"
 )
@@ -16,24 +19,40 @@ func init() { core.Register("C20", Main) }
 func Main() {
 	r := core.Start("C20", "exploration")
 	r.SetRule("TODO")
-	only := os.Getenv("C20_ONLY") // DEV-ONLY group filter
-	want := func(g string) bool { return only == "" || only == g }
-	if want("stream") {
-		r.Cases("stream-corpus", len(writeSizeCorpus)*len(readSizeCorpus), core.Opts{Workers: 16}, streamCorpus)
-		r.Cases("stream", r.N(150, 20000), core.Opts{Workers: 16}, streamRandom)
-		r.Cases("stream-concurrent-writers", r.N(60, 6000), core.Opts{Workers: 8}, concurrentWriters)
+	only := os.Getenv("C20_ONLY") // DEV-ONLY: group name prefix filter
+	timing := os.Getenv("C20_TIMING") != "" && !r.IsChild()
+	grp := func(name string, n int, o core.Opts, fn func(*core.Case)) {
+		if only != "" && !strings.HasPrefix(name, only) {
+			return
+		}
+		t0 := time.Now()
+		r.Cases(name, n, o, fn)
+		if timing {
+			fmt.Fprintf(os.Stderr, "%-28s %6d cases %8.2fs\n", name, n, time.Since(t0).Seconds())
+		}
 	}
-	if want("tamper") {
-		r.Cases("tamper-enumeration", len(tamperConversations), core.Opts{Workers: 8}, tamperEnumerate)
-		r.Cases("tamper-all-bytes", 36, core.Opts{Workers: 16}, tamperAllBytes)
-		r.Cases("tamper-random", r.N(200, 40000), core.Opts{Workers: 16}, tamperRandom)
-	}
-	if want("handshake") {
-		r.Cases("handshake-low-order", len(lowOrderPoints), core.Opts{Workers: 8}, lowOrderAll)
-		r.Cases("handshake", r.N(20, 1500)*len(hsScenarios), core.Opts{Workers: 16}, handshakeCase)
-		r.Cases("handshake-malformed", r.N(2, 40)*malformedCount(), core.Opts{Procs: 8, StallSec: 150, HangIsViolation: true}, malformedCase)
-		r.Cases("crafted-frames", r.N(2, 40)*len(craftedLengths), core.Opts{Procs: 4, StallSec: 150, HangIsViolation: true}, craftedFrames)
-		r.Cases("short-frames", r.N(30, 2000), core.Opts{Workers: 8}, zeroLengthFrames)
-	}
+	child := core.Opts{Procs: 8, StallSec: 150, HangIsViolation: true}
+	grp("stream-corpus", len(writeSizeCorpus)*len(readSizeCorpus), core.Opts{Workers: 16}, streamCorpus)
+	grp("stream-random", r.N(150, 20000), core.Opts{Workers: 16}, streamRandom)
+	grp("stream-concurrent-writers", r.N(60, 6000), core.Opts{Workers: 8}, concurrentWriters)
+	grp("tamper-enumeration", len(tamperConversations), core.Opts{Workers: 8}, tamperEnumerate)
+	grp("tamper-all-bytes", 36, core.Opts{Workers: 16}, tamperAllBytes)
+	grp("tamper-random", r.N(200, 40000), core.Opts{Workers: 16}, tamperRandom)
+	grp("handshake-low-order", len(lowOrderPoints), core.Opts{Workers: 8}, lowOrderAll)
+	grp("handshake-matrix", r.N(20, 1500)*len(hsScenarios), core.Opts{Workers: 16}, handshakeCase)
+	grp("handshake-malformed", r.N(2, 40)*malformedCount(), child, malformedCase)
+	grp("crafted-frames", r.N(2, 40)*len(craftedLengths), child, craftedFrames)
+	grp("short-frames", r.N(30, 2000), core.Opts{Workers: 8}, zeroLengthFrames)
+	grp("mconn-corpus", 16, core.Opts{Workers: 8}, trafficCorpus)
+	grp("mconn-traffic", r.N(150, 15000), core.Opts{Workers: 16}, trafficRandom)
+	grp("mconn-empty-messages", r.N(20, 500), core.Opts{Workers: 8}, emptyMessages)
+	grp("mconn-oversize", r.N(60, 6000), core.Opts{Workers: 16}, oversizeCase)
+	grp("mconn-stop-race", r.N(80, 8000), core.Opts{Workers: 8}, stopRaceCase)
+	// the same concurrent workloads under the race detector (child processes of the -race binary)
+	race := core.Opts{Procs: 8, Race: true, StallSec: 300, Env: []string{"GORACE=halt_on_error=1"}}
+	grp("race-stream-concurrent-writers", r.N(40, 3000), race, concurrentWriters)
+	grp("race-mconn-traffic", r.N(60, 5000), race, trafficRandom)
+	grp("race-mconn-stop", r.N(40, 3000), race, stopRaceCase)
+	grp("mconn-garbage", r.N(6, 300)*len(garbageClasses), child, garbageCase)
 	r.Finish()
 }
